@@ -271,6 +271,52 @@ pub fn generate(tier: Tier, rng: &mut Rng) -> Vec<Case> {
             }
         }
     }
+    // built-ins given more arguments than they take, of awkward kinds (an argument that is ignored
+    // today is the first thing a later feature starts to parse)
+    {
+        let default = CtxSpec::default_ctx();
+        let ts = "timestamp('2024-02-29T23:59:59.999+05:30')";
+        let extras = ["'+-30:00'", "'00:-90000'", "'--30:00'", "'25:00'", "'600000:00'", "''", "'é'", "'UTC'", "'+05:30'", "'America/New_York'", "1", "null", "[1]", "9223372036854775807", "0.0 / 0.0"];
+        for acc in ["getFullYear", "getMonth", "getDayOfYear", "getDayOfMonth", "getDate", "getDayOfWeek", "getHours", "getMinutes", "getSeconds", "getMilliseconds"] {
+            for x in extras {
+                for src in [format!("{ts}.{acc}({x})"), format!("{acc}({ts}, {x})"), format!("{ts}.{acc}({x}, {x})")] {
+                    if let Some(mut c) = eval_case_from_src(&default, &src) {
+                        c.tags = vec!["special", "surplus-argument"];
+                        out.push(c);
+                    }
+                }
+            }
+        }
+        for f in ["size", "string", "int", "uint", "double", "bytes", "duration", "timestamp", "contains", "startsWith", "endsWith", "matches", "max", "min"] {
+            for x in ["'a'", "1", "null", "'('", "[]"] {
+                for src in [format!("{f}('ab', {x}, {x})"), format!("'ab'.{f}({x}, {x}, {x})"), format!("{f}()"), format!("'ab'.{f}()")] {
+                    if let Some(mut c) = eval_case_from_src(&default, &src) {
+                        c.tags = vec!["special", "surplus-argument"];
+                        out.push(c);
+                    }
+                }
+            }
+        }
+        // errors whose message carries a long non-ASCII value (anything that shortens or escapes the
+        // message works on bytes): every alignment of 1- to 4-byte characters around 250-270 bytes
+        for unit in ["é", "漢", "\u{1F431}", "aé"] {
+            for pad in 0..4usize {
+                let long = format!("{}{}", "x".repeat(pad), unit.repeat(140));
+                for src in [
+                    format!("int('{long}')"), format!("uint('{long}')"), format!("double('{long}')"), format!("duration('{long}')"), format!("timestamp('{long}')"),
+                    format!("'x'.matches('(' + '{long}')"), format!("double(['{long}'])"), format!("uint([['{long}', '{long}']])"), format!("string(['{long}', '{long}'])"),
+                    format!("{{'{long}': 1}}.nokey"), format!("hfail('{long}')"), format!("'{long}'.nomethod()"), format!("'{long}' + 1"),
+                ] {
+                    let (mut spec, _) = gen_context(rng, false);
+                    host_ctx(rng, &mut spec);
+                    if let Some(mut c) = eval_case_from_src(&spec, &src) {
+                        c.tags = vec!["special", "long-error"];
+                        out.push(c);
+                    }
+                }
+            }
+        }
+    }
     // conversions from text on either side of every representation limit
     let default = CtxSpec::default_ctx();
     let mut texts: Vec<String> = vec![];
